@@ -51,12 +51,24 @@ rng_eq(struct zrng_s a, struct zrng_s b)
 	return a.prev == b.prev && a.next == b.next && a.trno == b.trno && a.offs == b.offs;
 }
 
+/* hash set of the visited cache states (open addressing, index + 1) */
+#define HBITS	16
+static int htab[1 << HBITS];
+
+static unsigned int
+hash_state(struct zrng_s c)
+{
+	uint64_t h = ex_hash_mix((uint64_t)c.prev, (uint64_t)c.next);
+	h = ex_hash_mix(h, ((uint64_t)(uint32_t)c.offs << 8) | c.trno);
+	return (unsigned int)(h >> 20) & ((1U << HBITS) - 1U);
+}
+
 static int
 find_state(struct zrng_s c)
 {
-	for (size_t i = 0; i < nsts; i++) {
-		if (rng_eq(sts[i].c, c)) {
-			return (int)i;
+	for (unsigned int h = hash_state(c); htab[h]; h = (h + 1U) & ((1U << HBITS) - 1U)) {
+		if (rng_eq(sts[htab[h] - 1].c, c)) {
+			return htab[h] - 1;
 		}
 	}
 	return -1;
@@ -65,6 +77,7 @@ find_state(struct zrng_s c)
 static int
 add_state(struct zrng_s c, int parent, int via)
 {
+	unsigned int h;
 	if (nsts >= csts) {
 		csts = csts ? 2 * csts : 256;
 		sts = realloc(sts, csts * sizeof(*sts));
@@ -72,6 +85,10 @@ add_state(struct zrng_s c, int parent, int via)
 	sts[nsts].c = c;
 	sts[nsts].parent = parent;
 	sts[nsts].via = via;
+	for (h = hash_state(c); htab[h]; h = (h + 1U) & ((1U << HBITS) - 1U)) {
+		;
+	}
+	htab[h] = (int)nsts + 1;
 	return (int)nsts++;
 }
 
@@ -209,6 +226,18 @@ report(const struct zc_src *s, int si, size_t qi, const char *what, const char *
 	va_end(ap);
 	snprintf(key, sizeof(key), "zifcache %s %s state=%s query=%s", what, s->sys ? "installed" : "synthetic",
 		 state_kind(s, sts[si].c), rel_kind(sts[si].c, q->t));
+	/* millions of cases per class: format the example only when it will be kept */
+	if (!g_replay) {
+		for (int i = 0; i < ex.nviol; i++) {
+			if (!strcmp(ex.viol[i].key, key)) {
+				if ((double)q->t >= ex.viol[i].ord) {
+					ex_viol(key, (double)q->t, "", NULL, "");
+					return;
+				}
+				break;
+			}
+		}
+	}
 	/* the case: source, then the operations of the history, then the query */
 	{
 		size_t n = (size_t)snprintf(cas, sizeof(cas), "%s", s->name);
@@ -389,6 +418,7 @@ run_src(struct zc_src *s)
 	zc_src_activate(s);
 	build_ops(s);
 	nsts = 0;
+	memset(htab, 0, sizeof(htab));
 	if ((z = zc_fresh(s)) == NULL) {
 		ex_viol("zifcache zif_open fails", 0, s->name, NULL, "%s: zif_open returns NULL", s->name);
 		free(ops);
